@@ -55,6 +55,15 @@ class DbInfo:
         self.origins = Origins(self.crate, self.cg)
 
     # ---- classes (by type, not by name)
+    def maps_where(self, pred):
+        """names of the maps whose (key type, value type) satisfy pred"""
+        return sorted(n for n, (k, v) in self.maps.items() if pred(k, v))
+
+    def text_store(self):
+        """the map holding the analysed text of each file: PathBuf -> Arc<String>"""
+        ms = self.maps_where(lambda k, v: k == "std::path::PathBuf" and v == "std::sync::Arc<std::string::String>")
+        return ms[0] if len(ms) == 1 else None
+
     def shared_by_name(self):
         return sorted(n for n, (k, v) in self.maps.items() if k == "std::string::String" and v.startswith("std::vec::Vec<"))
 
@@ -87,7 +96,7 @@ class DbInfo:
                             for _bb, c in f.calls())
             if not has_parse:
                 continue
-            if any(op.fn.id == f.id and op.method == "insert" for op in self.ops_by_map.get("file_cache", [])):
+            if any(op.fn.id == f.id and op.method == "insert" for op in self.ops_by_map.get(self.text_store() or "?", [])):
                 cands.append(f)
         return cands[0] if len(cands) == 1 else None
 
